@@ -27,10 +27,15 @@
 // can be joined to lies at least 7 levels below the sandbox root; absolute names point into the sandbox
 // (placeholder @ROOT@).  So even a server that confines nothing stays inside /tmp/c19e-XXXX.
 //
-// Reads: an inotify instance per sandbox watches every directory outside data/ and logs/ for IN_ACCESS (read, pread,
-// getdents by ANY process); events on victim entries (c19victim*) between two of the parent's own snapshots are reads by
-// the server: PropFail `…/read-outside` even when nothing of the content comes back in a response.  os.Stat and an open
-// without a read are not visible this way (suite path, `preal tagsTreeRead`, covers the one reader found so far).
+// Reads: every directory of THIS sandbox outside data/ and logs/ is watched for read(2)/pread(2)/getdents(2): with fanotify
+// (FAN_ACCESS, needs CAP_SYS_ADMIN) every event carries the pid of the reader, and only reads by the server process of this
+// sandbox count — the parent's own snapshots, other workers and any other process on the machine (a `find /tmp`, a cleanup)
+// are ignored; without fanotify an inotify instance (IN_ACCESS, no pid) is used.  A read of a victim entry (c19victim*) seen
+// while a step runs is only a SUSPICION (the server has background goroutines; an event may belong to an earlier step): the
+// scenario up to that step is run again in a fresh sandbox, one step at a time, each followed by a quiet period, and a
+// PropFail `…/read-outside` is reported for the step(s) at which the read happens again (tag read:unconfirmed otherwise).
+// A response that contains a victim's secret is reported at once.  os.Stat and an open without a read are not visible this
+// way (suite path, `preal tagsTreeRead`, covers the one reader found so far).
 //
 // Restart: every server is restarted once before its first scenario (flush calls of the shutdown path, kill, new process on
 // the same directories and ports), so that the metrics of the bootstrap are ROTATED segments whose tags trees are read from
@@ -79,7 +84,7 @@ import (
 
 func init() {
 	register(&Suite{Name: "confine", Gen: c19eGen, Exec: c19eExec, Parallel: c19eWorkers,
-		Rule: "end to end on a real server process (cmd/startup.Main) inside a sandbox tree with victim files at every level: scenarios of requests with hostile and ordinary names through every name-carrying route (raw TCP, client-encoded, handler level); every server has been restarted once (its first metrics are rotated segments) and scenarios restart it again; after every request + flush the snapshot of everything outside data/ and logs/ must be unchanged, no response may contain a victim's secret and the kernel must not have seen a read (inotify IN_ACCESS) of a victim file or directory; distinct = sha1(op line); non-trivial = the scenario holds a hostile name"})
+		Rule: "end to end on a real server process (cmd/startup.Main) inside a sandbox tree with victim files at every level: scenarios of requests with hostile and ordinary names through every name-carrying route (raw TCP, client-encoded, handler level); every server has been restarted once (its first metrics are rotated segments) and scenarios restart it again; after every request + flush the snapshot of everything outside data/ and logs/ must be unchanged, no response may contain a victim's secret and the server process must not have read a victim file or directory (fanotify FAN_ACCESS with the reader's pid, fallback inotify IN_ACCESS; a read seen while a step runs counts only if it happens again when the scenario up to that step is repeated in a fresh sandbox, one step at a time); distinct = sha1(op line); non-trivial = the scenario holds a hostile name"})
 }
 
 const c19eWorkers = 4
@@ -709,19 +714,29 @@ func (s *c19eSandbox) call(rq c19eReq, timeout time.Duration) (c19eResp, error) 
 // ---------------------------------------------------------------- reads: inotify on everything outside data/ and logs/
 
 // c19eWatch reports which VICTIM files or directories (entries named c19victim*, and everything below a c19victim
-// directory) some process read since the last drain: IN_ACCESS = read(2)/pread(2)/getdents(2).  The parent itself reads
-// them only inside snapshot()/restore(), and drains afterwards; nothing else on the machine knows these files.
+// directory) of THIS sandbox were read since the last drain.  fanotify: the event names the reading process, reads(pid) keeps
+// the events of that process only.  inotify (fallback): any process; the parent itself reads the victims inside
+// snapshot()/restore(), so the caller must drain before a step, and a sandbox taken from the pool must be drained first.
 type c19eWatch struct {
+	fan  bool
 	fd   int
-	dirs map[int32]string
+	root string
+	dirs map[int32]string // inotify: watch descriptor → directory
 }
 
+const (
+	c19eFanCloexec      = 0x1
+	c19eFanNonblock     = 0x2
+	c19eFanMarkAdd      = 0x1
+	c19eFanAccess       = 0x1
+	c19eFanEventOnChild = 0x08000000
+	c19eFanOndir        = 0x40000000
+)
+
+var c19eNoFanotify = os.Getenv("C19E_NO_FANOTIFY") != ""
+
 func c19eNewWatch(s *c19eSandbox) *c19eWatch {
-	fd, err := syscall.InotifyInit1(syscall.IN_NONBLOCK | syscall.IN_CLOEXEC)
-	if err != nil {
-		return nil
-	}
-	w := &c19eWatch{fd: fd, dirs: map[int32]string{}}
+	var dirs []string
 	filepath.WalkDir(s.root, func(p string, d fs.DirEntry, err error) error {
 		if err != nil || !d.IsDir() {
 			return nil
@@ -729,23 +744,63 @@ func c19eNewWatch(s *c19eSandbox) *c19eWatch {
 		if s.allowed(p) {
 			return filepath.SkipDir
 		}
-		if wd, err := syscall.InotifyAddWatch(fd, p, syscall.IN_ACCESS); err == nil {
-			w.dirs[int32(wd)] = p
-		}
+		dirs = append(dirs, p)
 		return nil
 	})
-	w.reads() // the walk itself read the directories
+	if !c19eNoFanotify {
+		if fd, _, e := syscall.Syscall(syscall.SYS_FANOTIFY_INIT, c19eFanCloexec|c19eFanNonblock, uintptr(os.O_RDONLY|syscall.O_LARGEFILE|syscall.O_CLOEXEC), 0); e == 0 {
+			w := &c19eWatch{fan: true, fd: int(fd), root: s.root}
+			ok := true
+			atFdcwd := -100
+			for _, d := range dirs {
+				pth, err := syscall.BytePtrFromString(d)
+				if err != nil {
+					ok = false
+					break
+				}
+				if _, _, e := syscall.Syscall6(syscall.SYS_FANOTIFY_MARK, fd, c19eFanMarkAdd, c19eFanAccess|c19eFanEventOnChild|c19eFanOndir, uintptr(atFdcwd), uintptr(unsafe.Pointer(pth)), 0); e != 0 {
+					ok = false
+					break
+				}
+			}
+			if ok {
+				w.reads(0)
+				return w
+			}
+			syscall.Close(int(fd))
+		}
+	}
+	fd, err := syscall.InotifyInit1(syscall.IN_NONBLOCK | syscall.IN_CLOEXEC)
+	if err != nil {
+		return nil
+	}
+	w := &c19eWatch{fd: fd, root: s.root, dirs: map[int32]string{}}
+	for _, d := range dirs {
+		if wd, err := syscall.InotifyAddWatch(fd, d, syscall.IN_ACCESS); err == nil {
+			w.dirs[int32(wd)] = d
+		}
+	}
+	w.reads(0) // the walk itself read the directories
 	return w
 }
 
 func (w *c19eWatch) close() {
 	if w != nil {
+		w.reads(0) // closes the descriptors of pending fanotify events
 		syscall.Close(w.fd)
 	}
 }
 
-// reads returns the victim entries read since the last call (sorted, unique); drain = call it and drop the result
-func (w *c19eWatch) reads() []string {
+func (w *c19eWatch) isVictim(p string) bool {
+	if p != w.root && !strings.HasPrefix(p, w.root+"/") {
+		return false
+	}
+	return strings.HasPrefix(filepath.Base(p), "c19victim") || strings.Contains(p+"/", "/c19victim/")
+}
+
+// reads returns the victim entries read since the last call (sorted, unique) — with fanotify: read by process `pid`
+// (0 = nobody: drain only); drain = call it and drop the result
+func (w *c19eWatch) reads(pid int) []string {
 	if w == nil {
 		return nil
 	}
@@ -753,19 +808,45 @@ func (w *c19eWatch) reads() []string {
 	buf := make([]byte, 1<<16)
 	for {
 		n, err := syscall.Read(w.fd, buf)
+		if err == syscall.EINTR {
+			continue
+		}
 		if n <= 0 || err != nil {
 			break
+		}
+		if w.fan {
+			// struct fanotify_event_metadata { u32 event_len; u8 vers; u8 reserved; u16 metadata_len; u64 mask; s32 fd; s32 pid }
+			for off := 0; off+24 <= n; {
+				evLen := int(*(*uint32)(unsafe.Pointer(&buf[off])))
+				mask := *(*uint64)(unsafe.Pointer(&buf[off+8]))
+				efd := int(*(*int32)(unsafe.Pointer(&buf[off+16])))
+				epid := int(*(*int32)(unsafe.Pointer(&buf[off+20])))
+				if evLen < 24 {
+					break
+				}
+				off += evLen
+				if efd < 0 {
+					continue // queue overflow marker
+				}
+				if pid != 0 && epid == pid && mask&c19eFanAccess != 0 {
+					if p, err := os.Readlink(fmt.Sprintf("/proc/self/fd/%d", efd)); err == nil && w.isVictim(p) {
+						seen[p] = true
+					}
+				}
+				syscall.Close(efd)
+			}
+			continue
 		}
 		for off := 0; off+syscall.SizeofInotifyEvent <= n; {
 			ev := (*syscall.InotifyEvent)(unsafe.Pointer(&buf[off]))
 			name := strings.TrimRight(string(buf[off+syscall.SizeofInotifyEvent:off+syscall.SizeofInotifyEvent+int(ev.Len)]), "\x00")
 			off += syscall.SizeofInotifyEvent + int(ev.Len)
 			dir, ok := w.dirs[ev.Wd]
-			if !ok || ev.Mask&syscall.IN_ACCESS == 0 || name == "" {
+			if !ok || ev.Mask&syscall.IN_ACCESS == 0 || name == "" || pid == 0 {
 				continue
 			}
-			if strings.HasPrefix(name, "c19victim") || strings.Contains(dir+"/", "/c19victim/") {
-				seen[filepath.Join(dir, name)] = true
+			if p := filepath.Join(dir, name); w.isVictim(p) {
+				seen[p] = true
 			}
 		}
 	}
@@ -775,6 +856,70 @@ func (w *c19eWatch) reads() []string {
 	}
 	sort.Strings(l)
 	return l
+}
+
+// pid of the server process of this sandbox (changes with every restart)
+func (s *c19eSandbox) pid() int {
+	if s.cmd != nil && s.cmd.Process != nil {
+		return s.cmd.Process.Pid
+	}
+	return -1
+}
+
+// c19eConfirmReads decides a suspected read: the scenario prefix is run again in a FRESH sandbox (not from the pool), one
+// step at a time; after each step the watch is polled until nothing has been read for 250 ms (at most 3 s), so that a read
+// by a background goroutine of the server is booked on the step that causes it.  Result: step index → victim entries read.
+func c19eConfirmReads(steps []c19eParsed) map[int][]string {
+	res := map[int][]string{}
+	var s *c19eSandbox
+	var err error
+	for try := 0; try < 2 && s == nil; try++ {
+		if s, err = c19eNewSandbox(false); err != nil {
+			s = nil
+		}
+	}
+	if s == nil {
+		return res
+	}
+	defer func() {
+		s.kill()
+		os.RemoveAll(s.root)
+	}()
+	for i, st := range steps {
+		s.watch.reads(0)
+		if st.kind == "restart" {
+			if s.restart() != nil {
+				return res
+			}
+		}
+		for _, rq := range c19eBuild(s, st.kind, append([]string{}, st.names...)) {
+			if _, err := s.call(rq, 25*time.Second); err != nil {
+				return res // the server was lost: nothing can be confirmed beyond this point
+			}
+		}
+		seen := map[string]bool{}
+		quiet := 0
+		for t := 0; t < 60 && quiet < 5; t++ {
+			r := s.watch.reads(s.pid())
+			if len(r) == 0 {
+				quiet++
+			} else {
+				quiet = 0
+				for _, p := range r {
+					seen[s.show(p)] = true
+				}
+			}
+			time.Sleep(50 * time.Millisecond)
+		}
+		if len(seen) > 0 {
+			for p := range seen {
+				res[i] = append(res[i], p)
+			}
+			sort.Strings(res[i])
+		}
+		s.snapshot() // what the first run did between two steps (its reads are the parent's: dropped by the next drain)
+	}
+	return res
 }
 
 // ---------------------------------------------------------------- donor: a tags tree file written by a real server
@@ -830,6 +975,9 @@ func c19eGetSandbox() (*c19eSandbox, error) {
 		})
 	})
 	s := <-c19ePool
+	if s != nil && !s.dead {
+		s.watch.reads(0) // the last thing its previous user did was a snapshot: those reads are the parent's
+	}
 	if s == nil || s.dead {
 		var err error
 		for try := 0; try < 3; try++ {
@@ -1330,7 +1478,13 @@ func c19eExec(line string) Result {
 	if err != nil {
 		return Result{Out: "boot-failed: " + err.Error(), Tags: []string{"boot-failed"}}
 	}
-	defer func() { c19ePutSandbox(s) }()
+	held := true // false once c19eGetSandbox failed: it has given the pool token back itself
+	defer func() {
+		if held {
+			c19ePutSandbox(s)
+		}
+	}()
+	readReported := map[int]bool{}
 	res := Result{Out: fmt.Sprintf("ok %d", len(steps))}
 	tags := map[string]bool{}
 	before := s.base
@@ -1358,13 +1512,15 @@ func c19eExec(line string) Result {
 		}
 		shown := fmt.Sprintf("step %d %s %q", i+1, st.kind, st.names)
 		var leaked []string
-		s.watch.reads() // drop what the parent's own snapshot / restore read
+		s.watch.reads(0) // drop what the parent's own snapshot / restore read
+		lost := false
 		if st.kind == "restart" {
 			if err := s.restart(); err != nil {
 				tags["worker-lost:restart"] = true
 				s.kill()
 				c19ePutSandbox(s)
 				if s, err = c19eGetSandbox(); err != nil {
+					held = false
 					return Result{Out: "boot-failed: " + err.Error(), Tags: []string{"boot-failed"}}
 				}
 				before = s.base
@@ -1380,9 +1536,11 @@ func c19eExec(line string) Result {
 				s.kill()
 				c19ePutSandbox(s)
 				if s, err = c19eGetSandbox(); err != nil {
+					held = false
 					return Result{Out: "boot-failed: " + err.Error(), Tags: []string{"boot-failed"}}
 				}
 				before = s.base
+				lost = true // the rest of this step is void: the replacement server has not seen its requests
 				break
 			}
 			if os.Getenv("C19E_DEBUG") != "" {
@@ -1401,7 +1559,10 @@ func c19eExec(line string) Result {
 				leaked = append(leaked, string(rs.Body[j:e]))
 			}
 		}
-		readOut := s.watch.reads()
+		readOut := s.watch.reads(s.pid())
+		if lost {
+			readOut, leaked = nil, nil
+		}
 		if os.Getenv("C19E_DEBUG") != "" {
 			fmt.Fprintf(os.Stderr, "C19E %s reads=%q watch=%v\n", shown, readOut, s.watch != nil && len(s.watch.dirs) > 0)
 			if fds, err := os.ReadDir(fmt.Sprintf("/proc/%d/fd", s.cmd.Process.Pid)); err == nil {
@@ -1448,28 +1609,44 @@ func c19eExec(line string) Result {
 			s.kill()
 			c19ePutSandbox(s)
 			if s, err = c19eGetSandbox(); err != nil {
+				held = false
 				return Result{Out: "boot-failed: " + err.Error(), Tags: []string{"boot-failed"}}
 			}
 			after = s.base
 		}
-		if len(leaked) > 0 || len(readOut) > 0 {
-			var what []string
-			if len(leaked) > 0 {
-				what = append(what, fmt.Sprintf("the response contains the content of a victim file outside the data and log directories: %q", leaked[0]))
-				tags["read:leaked"] = true
-			}
-			if len(readOut) > 0 {
-				for j := range readOut {
-					readOut[j] = s.show(readOut[j])
-				}
-				if len(readOut) > 6 {
-					readOut = append(readOut[:6], "…")
-				}
-				what = append(what, "the server process read (read/pread/getdents, seen by inotify IN_ACCESS) entries OUTSIDE its data and log directories: "+strings.Join(readOut, ", "))
-				tags["read:accessed"] = true
-			}
-			res.Fails = append(res.Fails, PropFail{Sig: "confine/" + sigKind + "/read-outside", Msg: shown + ": " + strings.Join(what, "; ")})
+		if len(leaked) > 0 {
+			res.Fails = append(res.Fails, PropFail{Sig: "confine/" + sigKind + "/read-outside",
+				Msg: shown + ": " + fmt.Sprintf("the response contains the content of a victim file outside the data and log directories: %q", leaked[0])})
+			tags["read:leaked"] = true
 			tags["violation"] = true
+			readReported[i] = true
+		}
+		if len(readOut) > 0 {
+			// a suspicion only: decided by running the scenario up to here again, in a fresh sandbox, one step at a time
+			tags["read:suspected"] = true
+			conf := c19eConfirmReads(steps[:i+1])
+			if len(conf) == 0 {
+				tags["read:unconfirmed"] = true
+			}
+			var idx []int
+			for j := range conf {
+				idx = append(idx, j)
+			}
+			sort.Ints(idx)
+			for _, j := range idx {
+				if readReported[j] {
+					continue
+				}
+				readReported[j] = true
+				paths := conf[j]
+				if len(paths) > 6 {
+					paths = append(paths[:6], "…")
+				}
+				res.Fails = append(res.Fails, PropFail{Sig: "confine/" + c19eSigKind(steps[j]) + "/read-outside",
+					Msg: fmt.Sprintf("step %d %s %q: the server process read (read/pread/getdents) entries OUTSIDE its data and log directories: %s (seen while step %d ran, and again when the scenario up to it was repeated in a fresh sandbox, one step at a time)", j+1, steps[j].kind, steps[j].names, strings.Join(paths, ", "), i+1)})
+				tags["read:accessed"] = true
+				tags["violation"] = true
+			}
 		}
 		before = after
 	}
@@ -1478,6 +1655,22 @@ func c19eExec(line string) Result {
 	}
 	sort.Strings(res.Tags)
 	return res
+}
+
+// kind of the step plus, for steps with two names, which of them are hostile (witness class of a PropFail)
+func c19eSigKind(st c19eParsed) string {
+	pos := ""
+	if c19eKinds[st.kind].names > 1 {
+		for j, n := range st.names {
+			if c19eIsHostile(n) {
+				pos += fmt.Sprint(j + 1)
+			}
+		}
+	}
+	if pos != "" {
+		return st.kind + "." + pos
+	}
+	return st.kind
 }
 
 func (s *c19eSandbox) show(p string) string {
